@@ -42,14 +42,17 @@ var CPC = cpctypes.CpcStakingFixedAddress
 //	cS  ... with STATICCALL                                         (require success)
 //	cW  ... with CALL, swallows a failure (outer tx succeeds)       (stores the flag)
 //	cT  two CALLs in one transaction (calldata = len1 | payload1 | payload2)
-var ContractNames = []string{"cC", "cD", "cO", "cS", "cW", "cT"}
+//	cN  DELEGATECALLs cC's code, which CALLs the precompile: the calling code runs in cN's context      (nested)
+var ContractNames = []string{"cC", "cD", "cO", "cS", "cW", "cT", "cN"}
 
 func contractAddr(i int) common.Address {
 	return common.BytesToAddress(append([]byte("verif-stk-contract"), byte(i+1)))
 }
 
 // forwarder builds the runtime code of a calldata forwarder.
-func forwarder(kind byte, swallow bool) []byte {
+func forwarder(kind byte, swallow bool) []byte { return forwarderTo(kind, CPC, swallow) }
+
+func forwarderTo(kind byte, target common.Address, swallow bool) []byte {
 	a := asm.New()
 	// mem[0..cds) = calldata
 	a.Op(asm.CALLDATASIZE, asm.PUSH0, asm.PUSH0, asm.CALLDATACOPY)
@@ -58,7 +61,7 @@ func forwarder(kind byte, swallow bool) []byte {
 	if kind == asm.CALL || kind == asm.CALLCODE {
 		a.Op(asm.PUSH0)
 	}
-	a.PushA(CPC).Op(asm.GAS, kind)
+	a.PushA(target).Op(asm.GAS, kind)
 	if swallow {
 		// slot1 := flag + 1 (so that a write always happens)
 		a.PushU(1).Op(asm.ADD).PushU(1).Op(asm.SSTORE, asm.STOP)
@@ -163,7 +166,7 @@ func New(o Opts) *World {
 	co.Bal = 150_000_000
 	co.CpcDeployStaking = o.Decimals == 0
 	codes := [][]byte{forwarder(asm.CALL, false), forwarder(asm.DELEGATECALL, false), forwarder(asm.CALLCODE, false),
-		forwarder(asm.STATICCALL, false), forwarder(asm.CALL, true), twice()}
+		forwarder(asm.STATICCALL, false), forwarder(asm.CALL, true), twice(), forwarderTo(asm.DELEGATECALL, contractAddr(0), false)}
 	for i, n := range ContractNames {
 		co.Contracts = append(co.Contracts, chain.GenContract{Addr: contractAddr(i), Code: codes[i], Bal: o.CBal})
 		w.add(n, contractAddr(i))
